@@ -1,6 +1,6 @@
 (* T1 tie for the calculators of panoptica_result.py *)
 From Pan Require Import Base.Common Base.Sx Base.Rnd64 Model.MetricTable Model.EdgeCase Model.Result Gen.ResultCalc.
-From Coq Require Import Qfield.
+From Coq Require Import Qfield Lqa.
 Open Scope Z_scope.
 
 Lemma geneq_fp np nr tp : gen_fp np nr tp = calc_fp np tp.
@@ -10,6 +10,15 @@ Proof. unfold gen_fn, calc_fn. lia. Qed.
 
 Lemma Qdiv_eq a b c d : (a == c)%Q -> (b == d)%Q -> (a / b == c / d)%Q.
 Proof. intros -> ->. reflexivity. Qed.
+(* equality of two quotients by cross-multiplication, also when both denominators vanish (x / 0 = 0 in Q) *)
+Lemma Qdiv_cross a b c d : ((b == 0)%Q <-> (d == 0)%Q) -> (a * d == c * b)%Q -> (a / b == c / d)%Q.
+Proof.
+  intros Hz Hx. destruct (Qeq_dec b 0) as [Eb|Eb].
+  - pose proof (proj1 Hz Eb) as Ed. unfold Qdiv. rewrite Eb, Ed. unfold Qinv. cbn. ring.
+  - assert (Ed : ~ (d == 0)%Q) by (intro E; apply Eb, Hz, E).
+    apply (Qmult_inj_r _ _ (b * d)%Q); [intro E; apply Qmult_integral in E; tauto|].
+    transitivity (a * d)%Q; [field; exact Eb|]. rewrite Hx. field. exact Ed.
+Qed.
 
 (* rq before its single final rounding *)
 Definition fval_equiv (a b : fval) : Prop :=
@@ -23,8 +32,11 @@ Proof. unfold calc_rq, calc_rq_exact. destruct (tp =? 0); [destruct (0 <? np + n
 Lemma geneq_rq np nr tp : fval_equiv (gen_rq np nr tp) (calc_rq_exact np nr tp).
 Proof.
   unfold gen_rq, calc_rq_exact. destruct (tp =? 0); [destruct (0 <? np + nr); cbn; reflexivity|].
-  cbn [fval_equiv]. unfold rq_exact. rewrite geneq_fp, geneq_fn.
-  apply Qdiv_eq; [reflexivity|ring].
+  cbn [fval_equiv]. unfold rq_exact. rewrite ?geneq_fp, ?geneq_fn. unfold gen_fp, gen_fn, calc_fp, calc_fn.
+  (* robust against algebraically equivalent formulas, e.g. 2tp / (2tp + fp + fn) *)
+  first [ apply Qdiv_eq; [reflexivity|ring]
+        | apply Qdiv_cross; rewrite ?inject_Z_plus, ?inject_Z_mult, ?inject_Z_opp; unfold Z.sub;
+          rewrite ?inject_Z_plus, ?inject_Z_opp; change (inject_Z 2) with 2%Q; [split; intro E; lra|ring] ].
 Qed.
 
 Lemma geneq_prec np nr tp : (gen_prec np nr tp == qdiv tp (tp + calc_fp np tp))%Q.
